@@ -160,9 +160,18 @@ pub fn c05_scenario(ch: &mut Chooser, thorough: bool) -> Exec {
             return Exec { outcome: 0, violation: Some(v), features: vec![] };
         }
     }
+    let real_pause = tick == 1 && d1 == 1 && d2 == 2 && !random_order && epoch == epochs[0];
     let st_h1 = st.clone();
     let fin = if h1_finishes { Some(2 * tick + 1) } else { None };
-    sim.host("h1", move || clock_program(st_h1.clone(), "h1", d1, fin));
+    // the synchronous part of the software factory runs inside `Sim::bounce`; what it reads from
+    // the clocks there is judged like any other sample (at registration no host is current yet)
+    let inc_h1 = Rc::new(std::cell::Cell::new(0u32));
+    sim.host("h1", move || {
+        if inc_h1.replace(inc_h1.get() + 1) > 0 {
+            sample(&st_h1, "h1", "software factory called by bounce");
+        }
+        clock_program(st_h1.clone(), "h1", d1, fin)
+    });
     sim.client("c1", clock_program(st.clone(), "c1", 2, None));
     // registration step of every host (steps completed at registration)
     let mut reg: Vec<(&'static str, usize)> = vec![("h1", base), ("c1", base)];
@@ -175,7 +184,13 @@ pub fn c05_scenario(ch: &mut Chooser, thorough: bool) -> Exec {
     for k in base..steps + base {
         if k == late_at {
             let st_h2 = st.clone();
-            sim.host("h2", move || clock_program(st_h2.clone(), "h2", d2, None));
+            let inc_h2 = Rc::new(std::cell::Cell::new(0u32));
+            sim.host("h2", move || {
+                if inc_h2.replace(inc_h2.get() + 1) > 0 {
+                    sample(&st_h2, "h2", "software factory called by bounce");
+                }
+                clock_program(st_h2.clone(), "h2", d2, None)
+            });
             reg.push(("h2", k));
             feats.push("late-host");
         }
@@ -191,6 +206,13 @@ pub fn c05_scenario(ch: &mut Chooser, thorough: bool) -> Exec {
         }
         if let Some(c) = crashed_at_step {
             if k == c + down {
+                // in one corner of the grid real time is pushed beyond the virtual time the host
+                // has consumed before it is bounced: a wall-clock reading in the factory shows
+                if real_pause {
+                    std::thread::sleep(Duration::from_millis(tick * (k as u64 + 1) + 2));
+                }
+                // the factory runs between step k-1 and step k
+                st.borrow_mut().step = k;
                 sim.bounce(victim);
                 obs.push(format!("bounce {victim} before step {k}"));
                 crashed_at_step = None;
@@ -199,12 +221,14 @@ pub fn c05_scenario(ch: &mut Chooser, thorough: bool) -> Exec {
         }
         if let Some(f) = finish_step {
             if k == f + 1 + down {
+                st.borrow_mut().step = k;
                 sim.bounce("h1");
                 obs.push(format!("bounce h1 (software had returned) before step {k}"));
                 feats.push("bounce-after-finish");
             }
         }
         if bounce_without_crash && k == 3 + shift {
+            st.borrow_mut().step = k;
             sim.bounce(victim);
             obs.push(format!("bounce {victim} without crash before step {k}"));
             feats.push("bounce-without-crash");
@@ -240,7 +264,16 @@ pub fn c05_scenario(ch: &mut Chooser, thorough: bool) -> Exec {
             let hi = tickd * (s.step as u32 + 1);
             let offset = tickd * r as u32;
             let mut why = None;
-            if s.sim_elapsed < lo || s.sim_elapsed > hi {
+            if s.what.starts_with("software factory") && s.sim_elapsed != lo {
+                // (the value read is not printed: when it is wrong here it typically contains
+                // wall-clock time and differs from run to run)
+                why = Some(format!(
+                    "sim_elapsed read by the software factory inside Sim::bounce, called when Sim::elapsed is {:?} (before step {}), is {} that",
+                    lo,
+                    s.step,
+                    if s.sim_elapsed < lo { "earlier than" } else { "later than" },
+                ));
+            } else if s.sim_elapsed < lo || s.sim_elapsed > hi {
                 why = Some(format!("sim_elapsed {:?} is outside the window [{:?}, {:?}] of step {}", s.sim_elapsed, lo, hi, s.step));
             } else if s.elapsed + offset != s.sim_elapsed {
                 why = Some(format!("elapsed {:?} + simulation time at registration {:?} != sim_elapsed {:?}", s.elapsed, offset, s.sim_elapsed));
